@@ -99,10 +99,10 @@ class Spec(PropSpec):
     partial_note = ("two refinement theorems, both for every history of any length: c10_refines_partial (every operation except "
                     "create_dir_all / remove_dir_all; hypothesis: no class of FsSafe.v, which excludes every successful rename of a "
                     "regular file and every creation of a file at a name a file left) and c10_refines_renames_partial (the same "
-                    "alphabet plus renames of regular files within one directory, onto a fresh name or over an existing file; "
+                    "alphabet plus renames of regular files, onto a fresh name or over an existing file; "
                     "hypothesis: no KNOWN class - the narrow classes of known_findings.txt as gen/fam_fs.py decides them, mirrored "
                     "by FsKnown.v and cross-checked on every generated history). Still excluded by the second theorem beyond the "
-                    "known classes: create_dir_all / remove_dir_all, renames between two directories, any creation of a file at a "
+                    "known classes: create_dir_all / remove_dir_all, a sync of exactly one of the two directories of an unflushed rename between different directories, any creation of a file at a "
                     "name a file left earlier (the known finding Recreate is narrower), a rename onto a name a directory was "
                     "removed from; those are covered by the model, the correspondence and the oracle only. Every known class has a "
                     "_refuted theorem with a witness replayed on the crate")
